@@ -491,3 +491,72 @@ func VX_C16_ListenerOncePerConn(args []int) {
 	lis.Close()
 	vxCover("c16.listener")
 }
+
+func init() { vxRegister("VX_C02_CallDuringClose", VX_C02_CallDuringClose) }
+
+// VX_C02_CallDuringClose: Close has been called and is waiting for a pending
+// call X; a further call (or push) Y is issued on the same session, which may
+// be a dialled session with redial enabled. Y completes (with a non-OK status)
+// at once; when X's reply arrives X completes OK and Close returns; nothing
+// stays blocked. args: redial(0 accepted-style session, 1 dialled with redial enabled), kind(0 call, 1 push)
+func VX_C02_CallDuringClose(args []int) {
+	redial, kind := args[0], args[1]
+	var conn *vxConn
+	var s Session
+	if redial == 1 {
+		VXSetDialHook(func(addr string) (net.Conn, error) {
+			c := newVxConn("cli:1", addr)
+			if conn == nil {
+				conn = c
+			}
+			return c, nil
+		})
+		defer VXSetDialHook(nil)
+		p := NewPeer(PeerConfig{RedialTimes: 2})
+		var st *Status
+		s, st = p.Dial("srv:2")
+		vxAssume(st.OK())
+	} else {
+		p := vxNewPeer()
+		conn = newVxConn("cli:1", "srv:2")
+		var st *Status
+		s, st = p.ServeConn(conn)
+		vxAssume(st.OK())
+	}
+	vxWaitIdle()
+	var rx []byte
+	x := s.AsyncCall("/x", []byte("1"), &rx, make(chan CallCmd, 1))
+	closeDone := make(chan struct{})
+	go func() {
+		s.Close()
+		close(closeDone)
+	}()
+	vxWaitIdle()
+	vxAssert(!vxClosedChan(closeDone) && !vxDone(x), "[C08] Close waits for the call issued before closing")
+	yDone := make(chan struct{})
+	var ych chan CallCmd
+	go func() {
+		if kind == 0 {
+			ych = make(chan CallCmd, 1)
+			s.AsyncCall("/y", []byte("2"), new([]byte), ych)
+		} else {
+			s.Push("/y", []byte("2"))
+		}
+		close(yDone)
+	}()
+	vxWaitIdle()
+	vxAssert(vxClosedChan(yDone), "a call or push issued while the session is being closed returns")
+	if kind == 0 && vxClosedChan(yDone) {
+		vxAssert(len(ych) == 1, "the call issued while the session is being closed completes, delivered once")
+		if len(ych) == 1 {
+			y := <-ych
+			vxAssert(!y.StatusOK(), "it is refused with a non-OK status")
+		}
+	}
+	conn.feed(vxFrame(TypeReply, x.Output().Seq(), "", []byte("RX")))
+	vxWaitIdle()
+	vxAssert(vxDone(x) && x.StatusOK(), "the call issued before closing completes with the peer's reply")
+	vxAssert(vxClosedChan(closeDone), "[C08] Close returns once the pending call completed")
+	vxAssert(vxBlockedThreads() == 0, "nothing left blocked")
+	vxCover("c02.call-during-close")
+}
